@@ -42,6 +42,14 @@ class Infra(Exception):
     """Infrastructure failure: exit 2, never a verdict."""
 
 
+class ProductCrash(Exception):
+    """The test binary died with a Go panic / fatal error raised outside the
+    harness' own recover()s, i.e. in a goroutine of the code under test."""
+    def __init__(self, out):
+        Exception.__init__(self, "code under test crashed the process")
+        self.out = out
+
+
 # --------------------------------------------------------------------- TLC --
 
 def _tlc_classpath():
@@ -242,7 +250,10 @@ def go_test(pkgs, pkgdir, run, env=None, timeout=1200, race=False, tmp=None, cov
     except subprocess.TimeoutExpired:
         raise Infra("go test timeout: %s %s" % (pkgdir, run))
     if p.returncode != 0:
-        sys.stderr.write(p.stdout[-6000:])
+        o = p.stdout
+        if re.search(r"^(panic:|fatal error:)", o, re.M) and "[build failed]" not in o and "[setup failed]" not in o:
+            raise ProductCrash(o)
+        sys.stderr.write(o[-3000:])
         raise Infra("go test failed (rc=%d) for %s -run %s" % (p.returncode, pkgdir, run))
     return p.stdout, time.time() - t0
 
